@@ -156,21 +156,30 @@ func (p *Program) NewLabel() Label {
 // Assemble resolves all jump destinations to concrete instructions using the labels.
 // This method takes care of long jumps and resolves them by using early returns or unconditional long jumps.
 func (p *Program) Assemble() ([]bpf.Instruction, error) {
-	for _, jump := range p.jumps {
+	// The jumps are resolved from the last to the first one and the instructions that bridge
+	// a long jump are inserted directly after the jump that needs them. This way an insertion
+	// only moves instructions whose jumps have been resolved already, together with their
+	// destinations, and the skip values that were computed before stay valid.
+	for i := len(p.jumps) - 1; i >= 0; i-- {
+		jump := p.jumps[i]
+
+		// Inserting an instruction for one label moves the destination of the other label,
+		// so repeat until both destinations are within reach.
+		for resolved := false; !resolved; {
+			size := len(p.instructions)
+			if _, err := p.resolveLabel(jump, jump.trueLabel); err != nil {
+				return nil, err
+			}
+			if _, err := p.resolveLabel(jump, jump.falseLabel); err != nil {
+				return nil, err
+			}
+			resolved = size == len(p.instructions)
+		}
+
 		// This is safe since we are only accessing instructions that were inserted as bpf.JumpIf.
 		jumpInst := p.instructions[jump.index].(bpf.JumpIf)
-
-		skip, err := p.resolveLabel(jump, jump.trueLabel)
-		if err != nil {
-			return nil, err
-		}
-		jumpInst.SkipTrue = skip
-
-		skip, err = p.resolveLabel(jump, jump.falseLabel)
-		if err != nil {
-			return nil, err
-		}
-		jumpInst.SkipFalse = skip
+		jumpInst.SkipTrue = uint8(p.computeSkipN(jump, jump.trueLabel))
+		jumpInst.SkipFalse = uint8(p.computeSkipN(jump, jump.falseLabel))
 
 		if jumpInst.SkipTrue == 0 && jumpInst.SkipFalse == 0 {
 			return nil, fmt.Errorf("useless jump found")
@@ -198,16 +207,14 @@ func (p *Program) resolveLabel(jump JumpIf, label Label) (uint8, error) {
 
 	// BPF does not support long conditional jumps.
 	if skipN > math.MaxUint8 {
-		insertAfter := findInsertAfter(p.jumps, jump)
-
 		// If the jump destination is a return instruction, copy it and add an early return,
-		// if not, insert a long jump.
+		// if not, insert a long jump. The new instruction is placed directly after the jump.
 		jumpDest := p.instructions[dest[0]]
 		if _, ok := jumpDest.(bpf.RetConstant); !ok {
-			jumpDest = bpf.Jump{Skip: uint32(skipN - int(insertAfter.index))}
+			jumpDest = bpf.Jump{Skip: uint32(skipN)}
 		}
 
-		insertIndex := p.insertAfter(insertAfter.index, jumpDest)
+		insertIndex := p.insertAfter(jump.index, jumpDest)
 		p.labels[label] = append([]Index{insertIndex}, dest...)
 		skipN = p.computeSkipN(jump, label)
 	}
@@ -250,21 +257,6 @@ func (p *Program) updateIndices(after Index) {
 func (p *Program) computeSkipN(jump JumpIf, label Label) int {
 	dest := p.labels[label]
 	return int(dest[0]-jump.index) - 1
-}
-
-// To insert a new instruction into the instruction list, the furthest jump instruction within
-// a short jump is searched.
-// It is necessary to search a jump instruction to jump over the new inserted instruction
-// and do not disturb the program flow.
-func findInsertAfter(jumps []JumpIf, currentJump JumpIf) JumpIf {
-	insertAfter := currentJump
-	maxIndex := currentJump.index + 255
-	for _, jump := range jumps {
-		if jump.index < maxIndex {
-			insertAfter = jump
-		}
-	}
-	return insertAfter
 }
 
 // Calculate the index of the current instruction.
